@@ -91,6 +91,38 @@ func c04States(h *HistGen, thorough bool) [][]J {
 	return states
 }
 
+// bigBatchNoTrace: an insert batch of tens of megabytes whose last document is a duplicate must fail as
+// a whole on every backend (a backend that cannot hold the batch in one transaction has to refuse
+// it, not commit part of it).
+func bigBatchNoTrace(c *Ctx, be string) bool {
+	im := NewImpl(be, c.Scratch)
+	defer im.Destroy()
+	im.Exec(opLine("createCollection", J{"coll": hx("f")}), -1, false)
+	first := map[string]interface{}{"_id": fixedId(1), "x": int64(1)}
+	im.Exec(opLine("insert", J{"coll": hx("f"), "docs": []interface{}{encDoc(first)}}), -1, false)
+	before := im.Dump()
+	pad := strings.Repeat("p", 512*1024)
+	docs := []interface{}{}
+	for i := 0; i < 40; i++ {
+		docs = append(docs, encDoc(map[string]interface{}{"_id": fixedId(100 + i), "pad": pad}))
+	}
+	docs = append(docs, encDoc(map[string]interface{}{"_id": fixedId(1), "x": int64(2)}))
+	ln := opLine("insert", J{"coll": hx("f"), "docs": docs})
+	er := im.Exec(ln, -1, false)
+	c.Evals++
+	c.Count("bigbatch:" + be)
+	if !strings.HasPrefix(er.Line, "err") {
+		c.Violation(&Replay{Backend: be, Stream: "bigbatch", Case: []interface{}{J{"note": "41 documents of 512 KiB, the last one a duplicate _id"}}, Actual: []string{er.Line}, Note: "a batch containing a duplicate _id was accepted"})
+		return false
+	}
+	if after := im.Dump(); after != before {
+		c.Violation(&Replay{Backend: be, Stream: "bigbatch", Case: []interface{}{J{"note": "41 documents of 512 KiB, the last one a duplicate _id"}}, Expected: []string{fmt.Sprint(len(before))}, Actual: []string{fmt.Sprint(len(after))},
+			Note: "Insert returned " + er.Line + " but part of the batch is stored"})
+		return false
+	}
+	return true
+}
+
 func streamC04(c *Ctx) {
 	c.Rule = "fault enumeration: every kind of operation (valid and invalid inputs: duplicate/malformed _id at a later batch position, update producing an invalid document, missing/existing collection, index, document) x a pool of states x every position k of a failing store call (begin, get, set, delete, cursor item read, commit) among the calls the operation makes; " +
 		"per faulted run: error reported (never success), raw dump unchanged, follow-up operation succeeds, outcome and fired flag equal to the Lean model's; fault-free store-call traces compared call by call. non-trivial = distinct (operation, state, k) where the fault fired"
@@ -100,6 +132,11 @@ func streamC04(c *Ctx) {
 	backends := []string{"bbolt"}
 	if !c.Quick() {
 		backends = backendsAll
+	}
+	for _, be := range backendsAll {
+		if !bigBatchNoTrace(c, be) {
+			return
+		}
 	}
 	for _, be := range backends {
 		im := NewImpl(be, c.Scratch)
